@@ -51,7 +51,7 @@ checks = [
     check("C16", "fault_enumeration",
           "Per workload: accept plans Fixed(k) for 12 values of k around the block-header and sync-marker sizes plus random cycles, on sinks with and without write_vectored; ErrorKind::Interrupted at every sink call index (singly and in bursts); hard error (3 kinds) and Ok(0) at every sink call index. Oracle: schedule-only configurations give every call Ok and a byte-identical stream; a hard fault makes the call during which it fired return Err with the bytes accepted before it a prefix of the baseline.",
           "DESIGN.md §4 C16",
-          "After a CLEAN hard failure (nothing of the failing call accepted) the history continues on the recovered sink and the final stream must equal the baseline (serialize_all excepted); after a failure that accepted part of a block nothing more is asserted; faults are not scheduled inside Drop.",
+          "After a CLEAN hard failure (nothing of the failing call accepted) the history continues on the recovered sink and the final stream must be a valid file (reference parser) holding every other call's values in order plus all or none of the failed call's (serialize_all excepted); after a failure that accepted part of a block nothing more is asserted; faults are not scheduled inside Drop.",
           "deterministic simulation: enumeration of sink accept schedules and fault points over seeded writer histories"),
     check("C17", "fault_enumeration",
           "Per valid file (crate- or reference-written, all codecs): truncation at every byte offset x 5 reader kinds, every sync byte damaged, every block count and size rewritten to 8 hostile values, snappy CRC / payload damage, a byte xored at every offset, an I/O error (Other / UnexpectedEof / Interrupted) at every source call index of 4 stream readers. Oracles per fault class: genuine prefix only, corruption reported, error reported once then end of stream, no panic / endless loop, Ok(None) sticky.",
